@@ -8,6 +8,7 @@ import PyPhysim.Proofs.C06CombineView
 import PyPhysim.Proofs.C06Order
 import PyPhysim.Proofs.C06Gen
 import PyPhysim.Proofs.C06GenSim
+import PyPhysim.Proofs.C06Robust
 
 /-!
 # C06 — combining simulation results is independent of how repetitions were grouped
@@ -991,6 +992,114 @@ example :
     ((dictOf aliasWitness 2).map (·.1)).Nodup
       ∧ (Generated.C06Sim.mergeAll aliasWitness 1 2).2 = none
       ∧ Generated.C06Sim.mergeAll aliasWitness 1 2 = mergeAll aliasWitness 1 2 := by
+  decide +kernel
+
+
+/-! ## R15 — distinct values that are merely close; R16 — argument identity and buffer reuse -/
+
+/-- **R15, `setter_takes_effect_for_every_new_value`** (MISC, "the last observation wins"): whatever the
+    object held before, after `update(v)` the value IS `v`, `get_result()` returns `v`, the call is counted
+    and never raises — in particular a new value different from the old one replaces it however close the
+    two are (values are exact rationals: there is no tolerance in the model). -/
+theorem setter_takes_effect_for_every_new_value (r : Res) (o : Obs) (h : r.ty = .misc) :
+    (update r o).2 = none ∧ (update r o).1.value = o.v ∧ (update r o).1.n = r.n + 1
+      ∧ getResult (update r o).1 = .ok (.num o.v)
+      ∧ (update r o).1.vlist = (if r.acc then r.vlist ++ [o.v] else r.vlist)
+      ∧ (o.v ≠ r.value → (update r o).1.value ≠ r.value) := by
+  simp [update, h, getResult]
+
+/-- **R15, equality is exact**: `==` of two non-CHOICE results holds iff every compared attribute is
+    *equal* (no closeness); hence two SUM or MISC objects with the same past that received two different
+    observations `v ≠ w` never compare equal, whatever `|v - w|` is. -/
+theorem eq_is_exact (a b : Res) (ha : a.ty ≠ .choice) (hb : b.ty ≠ .choice) :
+    (eqPy a b = .ok true ↔
+      (a.name = b.name ∧ a.ty = b.ty ∧ a.total = b.total ∧ a.acc = b.acc ∧ a.vlist = b.vlist
+        ∧ a.tlist = b.tlist ∧ a.rsq = b.rsq ∧ a.rsum = b.rsum ∧ a.value = b.value))
+      ∧ (eqPy a b = .ok true ∨ eqPy a b = .ok false) := by
+  refine ⟨eqPy_true_iff a b ha hb, ?_⟩
+  obtain ⟨x, hx⟩ := eqPy_total a b hb
+  cases x <;> simp [hx]
+
+theorem close_observations_compare_unequal (r : Res) (v w : Rat) (t t' : Option Rat)
+    (h : r.ty = .sum ∨ r.ty = .misc) (hvw : v ≠ w) :
+    eqPy (update r ⟨v, t⟩).1 (update r ⟨w, t'⟩).1 = .ok false := by
+  have hty : ∀ o, (update r o).1.ty = r.ty := by
+    intro o; rcases h with h | h <;> simp [update, h]
+  have hc : ∀ o, (update r o).1.ty ≠ .choice := by
+    intro o; rw [hty]; rcases h with h | h <;> simp [h]
+  rcases (eq_is_exact _ _ (hc ⟨v, t⟩) (hc ⟨w, t'⟩)).2 with ht | hf
+  · have := ((eqPy_true_iff _ _ (hc ⟨v, t⟩) (hc ⟨w, t'⟩)).mp ht).2.2.2.2.2.2.2.2
+    rcases h with h | h <;> simp [update, h] at this <;> exact absurd this hvw
+  · exact hf
+
+/-- the neighbouring doubles 0.3 / 0.30000000000000004 and the noise powers 4·10⁻¹² / 4·10⁻¹³ as
+    observations of a MISC and a SUM result: stored exactly, compared unequal -/
+theorem close_observations_witness :
+    (update (fresh "x" .misc false 0) ⟨5404319552844595/18014398509481984, none⟩).1.value
+        ≠ (update (fresh "x" .misc false 0) ⟨5404319552844596/18014398509481984, none⟩).1.value
+      ∧ eqPy (update (fresh "x" .sum false 0) ⟨4/1000000000000, none⟩).1
+             (update (fresh "x" .sum false 0) ⟨4/10000000000000, none⟩).1 = .ok false
+      ∧ (update (update (fresh "x" .misc true 0) ⟨4/1000000000000, none⟩).1 ⟨4/10000000000000, none⟩).1.value
+          = 4/10000000000000 := by
+  decide +kernel
+
+/-- **R15, `lookup_exact`**: `list(values).index(x)` (the look-up inside `get_pack_indexes`) returns `i`
+    iff `values[i]` IS `x` and no earlier element is; it fails (`ValueError`: "no result for this
+    combination") iff `x` is not an element — the other elements of the grid, however close to `x`, play
+    no role. -/
+theorem lookup_exact (x : Rat) (vals : List Rat) :
+    (∀ i, indexOf? x vals = some i ↔ vals[i]? = some x ∧ ∀ j, j < i → vals[j]? ≠ some x)
+      ∧ (indexOf? x vals = none ↔ x ∉ vals) :=
+  ⟨indexOf?_eq_some_iff x vals, indexOf?_eq_none_iff x vals⟩
+
+/-- **R16, the result of a merge depends on the contents at call time, not on which object holds them**:
+    merging an operand at address `b` or an equal-content object at another address `b'` gives the same
+    machine; the receiver becomes `merge ra rb` of the two records read at the call. -/
+theorem merge_depends_on_contents_only (m : Mach) (a b b' : Nat) (h : m.res[b]? = m.res[b']?) :
+    mergeR m a b = mergeR m a b' := by
+  unfold mergeR; rw [h]
+
+/-- **R16, one operand object refilled between two merges**: `a.merge(b); b.update(o); a.merge(b)` with
+    `a ≠ b` — the refill does not reach back into the receiver (the first merge kept no reference to the
+    operand), and the second merge reads the operand's NEW contents. -/
+theorem operand_refilled_between_merges (m : Mach) (a b : Nat) (ra rb : Res) (o : Obs) (hab : a ≠ b)
+    (ha : m.res[a]? = some ra) (hb : m.res[b]? = some rb) :
+    let m1 := (mergeR m a b).1
+    let m2 := (updR m1 b o).1
+    m2.res[a]? = some (merge ra rb).1
+      ∧ m2.res[b]? = some (update rb o).1
+      ∧ (mergeR m2 a b).1.res[a]? = some (merge (merge ra rb).1 (update rb o).1).1
+      ∧ (mergeR m2 a b).1.res[b]? = some (update rb o).1 := by
+  intro m1 m2
+  have h1a : m1.res[a]? = some (merge ra rb).1 := (mergeR_spec ha hb).1
+  have h1b : m1.res[b]? = some rb := by
+    rw [show m1.res[b]? = m.res[b]? from mergeR_res_ne m a b (Ne.symm hab)]; exact hb
+  have h2a : m2.res[a]? = some (merge ra rb).1 := by
+    rw [show m2.res[a]? = m1.res[a]? from updR_res_ne m1 b o hab]; exact h1a
+  have h2b : m2.res[b]? = some (update rb o).1 := updR_spec o h1b
+  refine ⟨h2a, h2b, (mergeR_spec h2a h2b).1, ?_⟩
+  rw [mergeR_res_ne m2 a b (Ne.symm hab)]; exact h2b
+
+/-- **R16, the same object in both roles**: `a.merge(a)` never raises and doubles every sufficient
+    statistic (SUM, RATIO, CHOICE; the value lists are appended to themselves when accumulating). -/
+theorem self_merge_doubles (a : Res) (hm : a.ty ≠ .misc) :
+    (merge a a).2 = none ∧ (merge a a).1.n = a.n + a.n ∧ (merge a a).1.value = a.value + a.value
+      ∧ (merge a a).1.total = a.total + a.total ∧ (merge a a).1.rsum = a.rsum + a.rsum
+      ∧ (merge a a).1.rsq = a.rsq + a.rsq
+      ∧ (merge a a).1.counts = List.zipWith (· + ·) a.counts a.counts
+      ∧ (merge a a).1.vlist = (if a.acc then a.vlist ++ a.vlist else a.vlist) := by
+  rw [merge_ok (Compat.refl a)]
+  cases hty : a.ty <;> cases hacc : a.acc <;> simp_all [mergeCore, extendLists]
+
+/-- the hypotheses of `close_observations_compare_unequal` and `operand_refilled_between_merges` are
+    satisfiable: a SUM object; a heap with a receiver at address 0 and an operand at address 1 -/
+example :
+    ((fresh "x" .sum false 0).ty = .sum ∨ (fresh "x" .sum false 0).ty = .misc)
+      ∧ (0 : Nat) ≠ 1
+      ∧ (⟨[fresh "x" .sum true 0, (update (fresh "x" .sum true 0) ⟨3, none⟩).1], [], []⟩ : Mach).res[0]?
+          = some (fresh "x" .sum true 0)
+      ∧ (⟨[fresh "x" .sum true 0, (update (fresh "x" .sum true 0) ⟨3, none⟩).1], [], []⟩ : Mach).res[1]?
+          = some (update (fresh "x" .sum true 0) ⟨3, none⟩).1 := by
   decide +kernel
 
 end PyPhysim.C06
